@@ -1,4 +1,6 @@
-"""setup: nothing to build (pure Python run from source); verifies the toolchain"""
+"""setup: nothing to build (pure Python run from source).  Verifies the toolchain and anchors the
+reference models on real traffic (mc/validate.py); the result is stored in .state/validation.json and
+summarised into the evidence files."""
 import sys
 
 
@@ -6,7 +8,10 @@ def main():
     from . import harness
     m = harness.load()
     import dpkt, scapy, cryptography  # noqa
-    print("setup ok: tlexport from", m.__file__)
+    print("setup: tlexport from", m.__file__)
+    from . import validate
+    validate.main()
+    print("setup ok")
 
 
 if __name__ == "__main__":
